@@ -49,7 +49,8 @@ if the written reaction has a net effect and whole-number totals (what the const
 * each of the four dictionaries holds exactly the written keys of that side and kind (`written` is `none` for every
   other key), each with the exact SUM of its written coefficients — the decimal texts with their exact rational value —
   as an `int`, or as a `float` iff one of the summed coefficients is written as a decimal;
-* no key appears twice;
+* no key appears twice and the keys of each dictionary are in strictly increasing code-point order (what `==` on the
+  OrderedDicts observes);
 * the parameter text handed to `eval` is exactly the first tail part, stripped (`none` without a tail): the
   stoichiometry is unaffected by whatever follows the first `;`. -/
 theorem parse_written (ev : Bool) (tok : Str) (reac prod : List Term) (tl : List Str) (htok : tokOK tok = true)
@@ -63,10 +64,13 @@ theorem parse_written (ev : Bool) (tok : Str) (reac prod : List Term) (tl : List
       (∀ k, dictGet r.inactReac k = written true k reac) ∧
       (∀ k, dictGet r.inactProd k = written true k prod) ∧
       (keysOf r.reac).Nodup ∧ (keysOf r.prod).Nodup ∧ (keysOf r.inactReac).Nodup ∧ (keysOf r.inactProd).Nodup ∧
+      SortedKeys r.reac ∧ SortedKeys r.prod ∧ SortedKeys r.inactReac ∧ SortedKeys r.inactProd ∧
       r.param = finalParam ev (tl.head?.map strip) ∧ r.name = none := by
   refine ⟨{ parsedOf reac prod with param := finalParam ev (tl.head?.map strip) }, ?_, get_sorted_actD reac, get_sorted_actD prod,
     get_sorted_inaD reac, get_sorted_inaD prod, (sortDict_spec (nodup_actD reac)).1, (sortDict_spec (nodup_actD prod)).1,
-    (sortDict_spec (nodup_inaD reac)).1, (sortDict_spec (nodup_inaD prod)).1, rfl, rfl⟩
+    (sortDict_spec (nodup_inaD reac)).1, (sortDict_spec (nodup_inaD prod)).1,
+    sortedKeys_sortDict (nodup_actD reac), sortedKeys_sortDict (nodup_actD prod), sortedKeys_sortDict (nodup_inaD reac),
+    sortedKeys_sortDict (nodup_inaD prod), rfl, rfl⟩
   rw [toReaction_lift ev .none htok hr hp tl htl hlen hev, toReaction_written .none htok hr hp tl htl]
   simp [allAllowed, Allowed.has, outcome, heff, hint, parsedOf]
 
@@ -96,40 +100,77 @@ theorem decimal_text_value (n : Nat) (fr : Str) (hn : 1 ≤ n) (hne : fr ≠ [])
     (hlen : (natStr n).length + fr.length ≤ 15) :
     pyFloat (natStr n ++ '.' :: fr) = .ok (decValue n fr) := pyFloat_dec hn hne hd hlen
 
-/-- a written reaction whose species all cancel is refused (`check_any_effect`), never misread — stated for the eval-free
-core `toReactionCore`; through `toReaction` it holds for lines with at most a parameter part (`toReaction_lift`), and NOT for
-lines with a keyword part such as `checks=()` (unmodelled, see `keyword_name_read`) -/
-theorem parse_written_no_effect (tok : Str) (reac prod : List Term) (tl : List Str) (htok : tokOK tok = true)
+/-- the exponent form of a coefficient text, e.g. `2e3 X`: the model's `float()` of `<m>e<k>` (m ≥ 1 with ≤ 15 digits,
+k ≤ 285) is exactly `m · 10^k` — an integral value, so such a coefficient passes `check_all_integral` as a `float`
+(the real double equals it whenever `m · 10^k < 2^53`; beyond that Python holds the nearest double, which is still integral) -/
+theorem exponent_text_value (m k : Nat) (hm : 1 ≤ m) (hlen : (natStr m).length ≤ 15) (hk : k ≤ 285) :
+    pyFloat (natStr m ++ 'e' :: natStr k) = .ok ((m : Rat) * ((10 ^ k : Nat) : Rat)) ∧
+    ((m : Rat) * ((10 ^ k : Nat) : Rat)).den = 1 := by
+  refine ⟨pyFloat_exp hm hlen hk, ?_⟩
+  rw [← Rat.natCast_mul]; rfl
+
+example : (pyFloat "25e2".toList).toOption = some 2500 := by decide +kernel
+
+/-- **complete outcome of reading a written line** (success characterisation): for every written reaction with at most a
+parameter part, every allowed-key argument and both eval modes, `from_string` answers
+* the unknown-key error iff some written key (active or inactive, either side) is not allowed; otherwise
+* the `check_any_effect` error iff the species cancel; otherwise
+* the `check_all_integral` error iff some total is not a whole number (`1.5 A -> B`); otherwise
+* the reaction `parsedOf reac prod` with the parameter treated by `finalParam`, and no name —
+never a reaction with a key dropped or a coefficient changed. -/
+theorem written_line_outcome (ev : Bool) (allowed : Allowed) (tok : Str) (reac prod : List Term) (tl : List Str)
+    (htok : tokOK tok = true) (hr : ∀ t ∈ reac, t.ok tok = true) (hp : ∀ t ∈ prod, t.ok tok = true)
+    (htl : ∀ p ∈ tl, ';' ∉ p ∧ '\n' ∉ p) (hlen : tl.length ≤ 1)
+    (hev : ev = true → paramEvalOK (tl.head?.map strip) = true) :
+    toReaction ev allowed tok (writeLine tok reac prod ++ tailText tl) =
+      if allAllowed allowed reac prod then
+        (if hasEffect reac prod then
+          (if integralWritten reac prod then
+            .ok { parsedOf reac prod with param := finalParam ev (tl.head?.map strip) }
+           else .error .nonIntegral)
+         else .error .noEffect)
+      else .error .unknownKey := by
+  rw [toReaction_lift ev allowed htok hr hp tl htl hlen hev, toReaction_written allowed htok hr hp tl htl]
+  by_cases h1 : allAllowed allowed reac prod = true <;> by_cases h2 : hasEffect reac prod = true <;>
+    by_cases h3 : integralWritten reac prod = true <;> simp [h1, h2, h3, outcome, parsedOf]
+
+/-- a written reaction whose species all cancel is refused (`check_any_effect`), never misread -/
+theorem parse_written_no_effect (ev : Bool) (tok : Str) (reac prod : List Term) (tl : List Str) (htok : tokOK tok = true)
     (hr : ∀ t ∈ reac, t.ok tok = true) (hp : ∀ t ∈ prod, t.ok tok = true) (htl : ∀ p ∈ tl, ';' ∉ p ∧ '\n' ∉ p)
+    (hlen : tl.length ≤ 1) (hev : ev = true → paramEvalOK (tl.head?.map strip) = true)
     (heff : hasEffect reac prod = false) :
-    toReactionCore .none tok (writeLine tok reac prod ++ tailText tl) = .error .noEffect := by
-  rw [toReaction_written .none htok hr hp tl htl]
-  simp [allAllowed, Allowed.has, outcome, heff]
+    toReaction ev .none tok (writeLine tok reac prod ++ tailText tl) = .error .noEffect := by
+  rw [written_line_outcome ev .none tok reac prod tl htok hr hp htl hlen hev]
+  simp [allAllowed, Allowed.has, heff]
 
 /-- a written reaction in which some total is not a whole number (e.g. `1.5 A -> B`) is refused (`check_all_integral`) -/
-theorem parse_written_non_integral (tok : Str) (reac prod : List Term) (tl : List Str) (htok : tokOK tok = true)
+theorem parse_written_non_integral (ev : Bool) (tok : Str) (reac prod : List Term) (tl : List Str) (htok : tokOK tok = true)
     (hr : ∀ t ∈ reac, t.ok tok = true) (hp : ∀ t ∈ prod, t.ok tok = true) (htl : ∀ p ∈ tl, ';' ∉ p ∧ '\n' ∉ p)
+    (hlen : tl.length ≤ 1) (hev : ev = true → paramEvalOK (tl.head?.map strip) = true)
     (heff : hasEffect reac prod = true) (hint : integralWritten reac prod = false) :
-    toReactionCore .none tok (writeLine tok reac prod ++ tailText tl) = .error .nonIntegral := by
-  rw [toReaction_written .none htok hr hp tl htl]
-  simp [allAllowed, Allowed.has, outcome, heff, hint]
+    toReaction ev .none tok (writeLine tok reac prod ++ tailText tl) = .error .nonIntegral := by
+  rw [written_line_outcome ev .none tok reac prod tl htok hr hp htl hlen hev]
+  simp [allAllowed, Allowed.has, heff, hint]
 
-/-- **Unknown keys are rejected — for every line whatsoever** (not only well-written ones): when an allowed-key list is
-given and the parser returns a reaction, every key of its four dictionaries is in the list. -/
-theorem unknown_key_rejected (ks : List Str) (tok line : Str) (r : Reaction)
-    (h : toReactionCore (.list ks) tok line = .ok r) : ∀ k ∈ r.keys, k ∈ ks := by
+/-- **Unknown keys are rejected — for every line whatsoever** (not only well-written ones), in both eval modes: when an
+allowed-key list is given and `from_string` returns a reaction, every key of its four dictionaries is in the list. -/
+theorem unknown_key_rejected (ev : Bool) (ks : List Str) (tok line : Str) (r : Reaction)
+    (h : toReaction ev (.list ks) tok line = .ok r) : ∀ k ∈ r.keys, k ∈ ks := by
+  obtain ⟨r0, h0, e1, e2, e3, e4⟩ := toReaction_core h
   intro k hk
-  have := toReaction_keys_allowed h k hk
+  have hk0 : k ∈ r0.keys := by simpa [Reaction.keys, e1, e2, e3, e4] using hk
+  have := toReaction_keys_allowed h0 k hk0
   simpa [Allowed.has] using this
 
 /-- … and a written reaction is accepted with an allowed-key list exactly when all its keys (active and inactive, both
 sides) are listed; otherwise the answer is the `Unknown substance_key` error, never a reaction with the key dropped. -/
-theorem written_with_allowed_keys (ks : List Str) (tok : Str) (reac prod : List Term) (tl : List Str)
+theorem written_with_allowed_keys (ev : Bool) (ks : List Str) (tok : Str) (reac prod : List Term) (tl : List Str)
     (htok : tokOK tok = true) (hr : ∀ t ∈ reac, t.ok tok = true) (hp : ∀ t ∈ prod, t.ok tok = true)
-    (htl : ∀ p ∈ tl, ';' ∉ p ∧ '\n' ∉ p) :
-    toReactionCore (.list ks) tok (writeLine tok reac prod ++ tailText tl) =
-      if allAllowed (.list ks) reac prod then outcome reac prod (tl.head?.map strip) else .error .unknownKey :=
-  toReaction_written (.list ks) htok hr hp tl htl
+    (htl : ∀ p ∈ tl, ';' ∉ p ∧ '\n' ∉ p) (hlen : tl.length ≤ 1)
+    (hev : ev = true → paramEvalOK (tl.head?.map strip) = true) (hnot : allAllowed (.list ks) reac prod = false) :
+    toReaction ev (.list ks) tok (writeLine tok reac prod ++ tailText tl) = .error .unknownKey := by
+  rw [written_line_outcome ev (.list ks) tok reac prod tl htok hr hp htl hlen hev]
+  simp [hnot]
 
 /-! ### print, then parse -/
 
@@ -138,26 +179,32 @@ theorem written_with_allowed_keys (ks : List Str) (tok : Str) (reac prod : List 
 keys (any space-free key, bracket-leading ones included, not of the shape `( … )`), no inactive groups, a net effect
 (what the constructor demands) and no parameter.  Then `r.string()` is defined and parsing it gives back exactly the
 same dictionaries: the result compares equal to `r`. -/
-theorem print_parse_roundtrip (tok : Str) (r : Reaction) (htok : tokOK tok = true)
+theorem print_parse_roundtrip (ev : Bool) (tok : Str) (r : Reaction) (htok : tokOK tok = true)
     (hre : GoodDict tok r.reac) (hpr : GoodDict tok r.prod) (hir : r.inactReac = []) (hip : r.inactProd = [])
     (heff : r.anyEffect = true) (hparam : r.param = none) :
-    ∃ s r', printReaction tok false false r = some s ∧ toReactionCore .none tok s = .ok r' ∧
+    ∃ s r', printReaction tok false false r = some s ∧ toReaction ev .none tok s = .ok r' ∧
       r'.reac = r.reac ∧ r'.prod = r.prod ∧ r'.inactReac = [] ∧ r'.inactProd = [] ∧ Reaction.eq r' r = true := by
-  obtain ⟨s, hs, hparse⟩ := parse_print htok hre hpr hir hip heff
+  obtain ⟨s, hs, hparse⟩ := parse_print_full htok hre hpr hir hip heff ev false (by intro h; cases h) (by intro _ h; cases h)
   refine ⟨s, _, hs, hparse, rfl, rfl, rfl, rfl, ?_⟩
-  simp [Reaction.eq, dictEq_refl, hir, hip, hparam, dictEq]
+  simp [Reaction.eq, dictEq_refl, hir, hip, hparam, dictEq, finalParam]
 
-/-- … and with the parameter printed (`with_param=True`): the parser is handed exactly the printed parameter text `p`
-(non-empty, no `;`, no newline, no surrounding white space — e.g. any `%.3g` output), so the re-read parameter is the
-value that text denotes: the original parameter at the printed precision (C20 proves what `%.3g` text denotes). -/
+/-- … and with the parameter printed (`with_param=True`) and an evaluating context: the parser is handed exactly the
+printed parameter text `p` — a numeric literal without surrounding blanks, `;` or newline, e.g. any `%.3g` output
+(`NumText`) — and keeps it, so the re-read parameter is the value that text denotes: the original parameter at the
+printed precision (C20 proves what `%.3g` text denotes). -/
 theorem print_parse_roundtrip_param (tok : Str) (r : Reaction) (p : Str) (htok : tokOK tok = true)
     (hre : GoodDict tok r.reac) (hpr : GoodDict tok r.prod) (hir : r.inactReac = []) (hip : r.inactProd = [])
-    (heff : r.anyEffect = true) (hparam : r.param = some p) (hpt : Tight p) (hps : ';' ∉ p) (hpn : '\n' ∉ p) :
-    ∃ s r', printReaction tok true false r = some s ∧ toReactionCore .none tok s = .ok r' ∧
+    (heff : r.anyEffect = true) (hparam : r.param = some p) (hpt : Tight p) (hps : ';' ∉ p) (hpn : '\n' ∉ p)
+    (hnum : NumText p) :
+    ∃ s r', printReaction tok true false r = some s ∧ toReaction true .none tok s = .ok r' ∧
       r'.param = some p ∧ Reaction.eq r' r = true := by
-  obtain ⟨s, hs, hparse⟩ := parse_print_param htok hre hpr hir hip heff hparam hpt hps hpn
-  refine ⟨s, _, hs, hparse, rfl, ?_⟩
-  simp [Reaction.eq, dictEq_refl, hir, hip, hparam, dictEq]
+  obtain ⟨s, hs, hparse⟩ := parse_print_full htok hre hpr hir hip heff true true
+    (by intro _ q hq; rw [hparam] at hq; simp at hq; subst hq; exact ⟨hpt, hps, hpn⟩)
+    (by intro _ _ q hq; rw [hparam] at hq; simp at hq; subst hq; exact (finalParam_num hnum).2)
+  have hf : finalParam true (if true = true then r.param else none) = some p := by
+    simp [hparam, (finalParam_num hnum).1]
+  refine ⟨s, _, hs, hparse, hf, ?_⟩
+  simp [Reaction.eq, dictEq_refl, hir, hip, hparam, dictEq, (finalParam_num hnum).1]
 
 /-- **print ∘ parse, systems** (`ReactionSystem.string()` then `ReactionSystem.from_string`, any list of comment tokens):
 for every list of printable reactions (no names printed, no inactive groups; `Printable` also asks that no key
@@ -209,10 +256,10 @@ theorem quoted_param_is_symbol (k : Str) (hk : '\'' ∉ k) :
       | cons c r => have := hp c rfl; simp [startsWith, List.isPrefixOf, Ne.symm this]
     simp [classifyParam, this]
 
-/-- **whatever the reader accepts passes the default checks of the constructor**: if `from_string` returns a reaction,
+/-- guard: the default checks named in the source (`Printing.defaultChecks`) are the ones `Reaction.check` runs — if `from_string` returns a reaction,
 constructing it again with the default `checks` (`default_checks ^ {}` from the source) raises nothing; and naming both
 `checks` and `dont_check` is always refused. -/
-theorem parsed_passes_default_checks (allowed : Allowed) (tok line : Str) (r : Reaction)
+theorem default_checks_run_guard (allowed : Allowed) (tok line : Str) (r : Reaction)
     (h : toReactionCore allowed tok line = .ok r) :
     r.initChecks none none = .ok r ∧ ∀ cs dc, r.initChecks (some cs) (some dc) = .error .both := by
   refine ⟨?_, fun _ _ => rfl⟩
@@ -240,25 +287,123 @@ theorem parsed_passes_default_checks (allowed : Allowed) (tok line : Str) (r : R
           simp [Reaction.runChecks, Reaction.runCheck, h1, h2, h3]
           rfl
 
+/-- **when the constructor accepts** (default `checks`, i.e. `default_checks ^ {}` of the source): exactly when the reaction has
+a net effect, no negative coefficient and only whole-number coefficients — otherwise one of the checks raises; and with a
+`dont_check` list of default names exactly the remaining ones decide (here: skipping `any_effect`). -/
+theorem init_default_checks_iff (r : Reaction) :
+    (r.initChecks none none = .ok r ↔ r.anyEffect = true ∧ r.allPositive = true ∧ r.allIntegral = true) ∧
+    (r.initChecks none (some ["any_effect"]) = .ok r ↔ r.allPositive = true ∧ r.allIntegral = true) := by
+  have e1 : symDiff Printing.defaultChecks (((none : Option (List String)).getD []).eraseDups)
+      = ["all_integral", "all_positive", "any_effect", "consistent_units"] := by decide
+  have e2 : symDiff Printing.defaultChecks (((some ["any_effect"] : Option (List String)).getD []).eraseDups)
+      = ["all_integral", "all_positive", "consistent_units"] := by decide
+  constructor
+  · unfold Reaction.initChecks
+    simp only []
+    rw [e1]
+    cases h1 : r.anyEffect <;> cases h2 : r.allPositive <;> cases h3 : r.allIntegral <;>
+      simp [Reaction.runChecks, Reaction.runCheck, h1, h2, h3, Except.map]
+  · unfold Reaction.initChecks
+    simp only []
+    rw [e2]
+    cases h2 : r.allPositive <;> cases h3 : r.allIntegral <;>
+      simp [Reaction.runChecks, Reaction.runCheck, h2, h3, Except.map]
+
+/-- **`checks=[…]`**: the constructor accepts exactly when every listed name is one of the four default check names and each
+listed check holds (`consistent_units` is vacuous for unit-less parameters); an unknown name is never accepted
+(Python: AttributeError), a failing check never (ValueError). -/
+theorem init_checks_list_iff (r : Reaction) (cs : List String) :
+    r.initChecks (some cs) none = .ok r ↔
+      (∀ c ∈ cs, c ∈ Printing.defaultChecks) ∧ ("any_effect" ∈ cs → r.anyEffect = true) ∧
+      ("all_positive" ∈ cs → r.allPositive = true) ∧ ("all_integral" ∈ cs → r.allIntegral = true) := by
+  unfold Reaction.initChecks
+  simp only [map_ok_iff, runChecks_ok_iff, List.mem_eraseDups, runCheck_ok_iff, defaultChecks_mem]
+  constructor
+  · intro h
+    refine ⟨?_, ?_, ?_, ?_⟩
+    · intro c hc
+      rcases h c hc with ⟨e, _⟩ | ⟨e, _⟩ | ⟨e, _⟩ | e <;> simp [e]
+    · intro hc; rcases h _ hc with ⟨_, h1⟩ | ⟨e, _⟩ | ⟨e, _⟩ | e
+      · exact h1
+      all_goals (exact absurd e (by decide))
+    · intro hc; rcases h _ hc with ⟨e, _⟩ | ⟨_, h1⟩ | ⟨e, _⟩ | e
+      · exact absurd e (by decide)
+      · exact h1
+      all_goals (exact absurd e (by decide))
+    · intro hc; rcases h _ hc with ⟨e, _⟩ | ⟨e, _⟩ | ⟨_, h1⟩ | e
+      · exact absurd e (by decide)
+      · exact absurd e (by decide)
+      · exact h1
+      · exact absurd e (by decide)
+  · rintro ⟨hk, h1, h2, h3⟩ c hc
+    rcases hk c hc with e | e | e | e
+    · subst e; exact Or.inr (Or.inr (Or.inl ⟨rfl, h3 hc⟩))
+    · subst e; exact Or.inr (Or.inl ⟨rfl, h2 hc⟩)
+    · subst e; exact Or.inl ⟨rfl, h1 hc⟩
+    · exact Or.inr (Or.inr (Or.inr e))
+
+/-- **`dont_check=[…]`** (`checks = default_checks ^ dont_check`, a SYMMETRIC difference): accepted exactly when every listed
+name is a default check name — an unknown name is ADDED as a check and always fails — and every default check that is not
+listed holds. -/
+theorem init_dont_check_iff (r : Reaction) (dc : List String) :
+    r.initChecks none (some dc) = .ok r ↔
+      (∀ c ∈ dc, c ∈ Printing.defaultChecks) ∧ ("any_effect" ∉ dc → r.anyEffect = true) ∧
+      ("all_positive" ∉ dc → r.allPositive = true) ∧ ("all_integral" ∉ dc → r.allIntegral = true) := by
+  unfold Reaction.initChecks
+  simp only [map_ok_iff, runChecks_ok_iff, mem_symDiff, List.mem_eraseDups, Option.getD_some, runCheck_ok_iff]
+  constructor
+  · intro h
+    refine ⟨?_, ?_, ?_, ?_⟩
+    · intro c hc
+      by_cases hd : c ∈ Printing.defaultChecks
+      · exact hd
+      · rcases h c (Or.inr ⟨hc, hd⟩) with ⟨e, _⟩ | ⟨e, _⟩ | ⟨e, _⟩ | e <;>
+          exact absurd ((defaultChecks_mem c).mpr (by simp [e])) hd
+    · intro hc
+      rcases h "any_effect" (Or.inl ⟨(defaultChecks_mem _).mpr (by simp), hc⟩) with ⟨_, h1⟩ | ⟨e, _⟩ | ⟨e, _⟩ | e
+      · exact h1
+      all_goals (exact absurd e (by decide))
+    · intro hc
+      rcases h "all_positive" (Or.inl ⟨(defaultChecks_mem _).mpr (by simp), hc⟩) with ⟨e, _⟩ | ⟨_, h1⟩ | ⟨e, _⟩ | e
+      · exact absurd e (by decide)
+      · exact h1
+      all_goals (exact absurd e (by decide))
+    · intro hc
+      rcases h "all_integral" (Or.inl ⟨(defaultChecks_mem _).mpr (by simp), hc⟩) with ⟨e, _⟩ | ⟨e, _⟩ | ⟨_, h1⟩ | e
+      · exact absurd e (by decide)
+      · exact absurd e (by decide)
+      · exact h1
+      · exact absurd e (by decide)
+  · rintro ⟨hk, h1, h2, h3⟩ c hc
+    rcases hc with ⟨hd, hnd⟩ | ⟨hd, hnd⟩
+    · rcases (defaultChecks_mem c).mp hd with e | e | e | e
+      · subst e; exact Or.inr (Or.inr (Or.inl ⟨rfl, h3 hnd⟩))
+      · subst e; exact Or.inr (Or.inl ⟨rfl, h2 hnd⟩)
+      · subst e; exact Or.inl ⟨rfl, h1 hnd⟩
+      · exact Or.inr (Or.inr (Or.inr e))
+    · exact absurd (hk c hd) hnd
+example : ∃ r : Reaction, r.initChecks (some ["all_positive", "all_integral"]) none = .ok r ∧ r.anyEffect = false :=
+  ⟨⟨[(['A'], Coef.ofNat 1)], [(['A'], Coef.ofNat 1)], [], [], none, none⟩,
+    (init_checks_list_iff _ _).mpr ⟨by decide, by decide, by intro _; decide +kernel, by intro _; decide +kernel⟩, by decide +kernel⟩
+example : ∀ r : Reaction, r.initChecks none (some ["no_such_check"]) ≠ .ok r := by
+  intro r h; have := ((init_dont_check_iff r _).mp h).1 "no_such_check" (by simp); revert this; decide
+
 /-! ### copy -/
 
-/-- **A copy compares equal to its original** — for EVERY reaction object, whatever the order of its containers (built
-from a plain dict, a set, an OrderedDict in arbitrary order, or edited in place afterwards), with or without inactive
-parts, parameter and name: `copy()` hands `copy.copy` of the (Ordered)dict attributes to the constructor, `_init_stoich`
-keeps OrderedDicts in their order, so the copy has the same dictionaries in the same order, compares equal
-(`OrderedDict.__eq__` is order sensitive) and prints the same text under every printer setting. -/
-theorem copy_eq (arrow : Str) (wp wn : Bool) (r : Reaction) :
-    r.copy.reac = r.reac ∧ r.copy.prod = r.prod ∧ r.copy.inactReac = r.inactReac ∧ r.copy.inactProd = r.inactProd ∧
-    Reaction.eq r.copy r = true ∧ printReaction arrow wp wn r.copy = printReaction arrow wp wn r := by
-  refine ⟨initStoich_ordered _, initStoich_ordered _, initStoich_ordered _, initStoich_ordered _, ?_, ?_⟩
-  · exact Reaction.eq_refl r
-  · rfl
-
-/-- … in particular for a reaction constructed from containers of any kind (dict / OrderedDict / set) -/
-theorem copy_of_constructed (kr kp kir kip : ContainerKind) (a b c d : Dict) (param name : Option Str) :
-    Reaction.eq (Reaction.construct kr kp kir kip a b c d param name).copy
-      (Reaction.construct kr kp kir kip a b c d param name) = true :=
-  (copy_eq [] false false _).2.2.2.2.1
+/-- `eq_iff`: **what `==` compares** — two reaction objects are equal iff each of the four dictionaries has the same keys in
+the same order with numerically equal coefficients (int 2 == float 2.0) and the parameters are equal; name, class
+(Reaction / Equilibrium), ref and data play no part. -/
+theorem eq_iff (a b : Reaction) :
+    Reaction.eq a b = true ↔
+      (keysOf a.reac = keysOf b.reac ∧ a.reac.map (·.2.val) = b.reac.map (·.2.val)) ∧
+      (keysOf a.prod = keysOf b.prod ∧ a.prod.map (·.2.val) = b.prod.map (·.2.val)) ∧
+      a.param = b.param ∧
+      (keysOf a.inactReac = keysOf b.inactReac ∧ a.inactReac.map (·.2.val) = b.inactReac.map (·.2.val)) ∧
+      (keysOf a.inactProd = keysOf b.inactProd ∧ a.inactProd.map (·.2.val) = b.inactProd.map (·.2.val)) := by
+  simp only [Reaction.eq, Bool.and_eq_true, dictEq_iff, beq_iff_eq]
+  constructor
+  · rintro ⟨⟨⟨⟨h1, h2⟩, h3⟩, h4⟩, h5⟩; exact ⟨h1, h2, h3, h4, h5⟩
+  · rintro ⟨h1, h2, h3, h4, h5⟩; exact ⟨⟨⟨⟨h1, h2⟩, h3⟩, h4⟩, h5⟩
 
 /-- the container TYPE matters: were the attributes handed to the constructor as plain `dict`s (`dict(v)` instead of
 `copy.copy(v)`), `_init_stoich` would re-sort them and the copy of a reaction built from an unsorted OrderedDict
@@ -314,26 +459,32 @@ theorem unsorted_ordered_dict_witness :
 
 /-! ### the hypotheses are satisfiable: concrete non-trivial instances -/
 
-/-- `(NH4)2SO4 + (2 H2O) + 1.50 X + 1.5 X -> 2 NH4+ + SO4-2 + 1 * NH4+ + 2.0 X; 1.5e-07 ; name='r1'`:
-a bracket-leading key, an inactive group, a repeated species, decimal coefficients, a parameter and a keyword part -/
+/-- `(NH4)2SO4 + (2 H2O) + 1.50 X + 1.5 X -> 2 NH4+ + SO4-2 + 1 * NH4+ + 2.0 X; 1.5e-07 `:
+a bracket-leading key, an inactive group, a repeated species, decimal coefficients, and a parameter part -/
 def exReac : List Term :=
   [⟨"(NH4)2SO4".toList, 1, .omit, false⟩, ⟨"H2O".toList, 2, .plain, true⟩, ⟨"X".toList, 1, .dec "50".toList, false⟩,
    ⟨"X".toList, 1, .dec "5".toList, false⟩]
 def exProd : List Term :=
   [⟨"NH4+".toList, 2, .plain, false⟩, ⟨"SO4-2".toList, 1, .omit, false⟩, ⟨"NH4+".toList, 1, .star, false⟩,
    ⟨"X".toList, 2, .dec "0".toList, false⟩]
-def exTail : List Str := [" 1.5e-07 ".toList, " name='r1'".toList]
+def exTail : List Str := [" 1.5e-07 ".toList]
 
 example : writeLine "->".toList exReac exProd ++ tailText exTail =
-    "(NH4)2SO4 + (2 H2O) + 1.50 X + 1.5 X -> 2 NH4+ + SO4-2 + 1 * NH4+ + 2.0 X; 1.5e-07 ; name='r1'".toList := by decide
+    "(NH4)2SO4 + (2 H2O) + 1.50 X + 1.5 X -> 2 NH4+ + SO4-2 + 1 * NH4+ + 2.0 X; 1.5e-07 ".toList := by decide
 example : tokOK "->".toList = true ∧ tokOK "=".toList = true := by decide
 example : (∀ t ∈ exReac, t.ok "->".toList = true) ∧ (∀ t ∈ exProd, t.ok "->".toList = true) := by decide
 example : ∀ p ∈ exTail, ';' ∉ p ∧ '\n' ∉ p := by decide
+example : exTail.length ≤ 1 ∧ paramEvalOK (exTail.head?.map strip) = true ∧ floatSafe exReac exProd = true := by decide +kernel
 example : hasEffect exReac exProd = true ∧ integralWritten exReac exProd = true := by decide +kernel
 example : written false "NH4+".toList exProd = some ⟨3, false⟩ ∧ written true "H2O".toList exReac = some ⟨2, false⟩ ∧
     written false "X".toList exReac = some ⟨3, true⟩ ∧ written false "X".toList exProd = some ⟨2, true⟩ ∧
     written false "Q".toList exProd = none := by decide +kernel
 example : exTail.head?.map strip = some "1.5e-07".toList := by decide
+example : NumText "1.5e-07".toList ∧ NumText "12".toList := by
+  refine ⟨⟨by decide, by decide, by decide⟩, ⟨by decide, by decide, by decide⟩⟩
+/-- `eq_iff` distinguishes: same keys, different order -/
+example : Reaction.eq ⟨[(['B'], Coef.ofNat 1), (['A'], Coef.ofNat 1)], [], [], [], none, none⟩
+    ⟨[(['A'], Coef.ofNat 1), (['B'], Coef.ofNat 1)], [], [], [], none, none⟩ = false := by decide +kernel
 example : classifyParam (strip " 'k_1' ".toList) = .symbol "k_1".toList ∧ classifyParam "1e-4".toList = .expr "1e-4".toList ∧
     classifyParam "'a'b'".toList = .expr "'a'b'".toList := by decide
 /-- `1.5 A -> B` has a non-integral total: refused -/
